@@ -733,6 +733,13 @@ func (ex *Exec) applyContract(st *State, c *Contract, fn *types.Func, recv *Val,
 		ex.keepGhosts = false
 		ex.reassumeObjInvs(st)
 	}
+	if c.LocalCalls {
+		for _, gname := range []string{"fnCalls", "fnCallsT", "fnCalledN"} {
+			if _, ok := ex.eng.cs.Ghosts[gname]; ok {
+				ex.havocSpecLval(st, "all("+gname+")", sc)
+			}
+		}
+	}
 	for _, cl := range c.Clauses {
 		if cl.Kind != "modifies" {
 			continue
